@@ -7,8 +7,11 @@ Plan(pw, cid, s, idu, ids, ksf) == [pw1 |-> A(pw), pw2 |-> A(pw), cid |-> A(cid)
                                     idu |-> idu, ids |-> ids, ksf |-> ksf]
 One == {NoneV}
 Long_SetupPlan == << [op |-> "new", tape |-> 1] >>
-Long_RegPlan == << Plan(1, 11, 1, NoneV, NoneV, 0), Plan(1, 90, 1, A(31), A(32), 0) >>
-Long_CliPw   == [c \in CliIds |-> IF c = 2 THEN <<A(1), A(93)>> ELSE <<A(1), A(1)>>]
+\* registrations 3 and 4: an over-long password at both steps (refused at start or at finish), and at finish only
+Long_RegPlan == << Plan(1, 11, 1, NoneV, NoneV, 0), Plan(1, 90, 1, A(31), A(32), 0),
+                   Plan(93, 12, 1, NoneV, NoneV, 0),
+                   [pw1 |-> A(1), pw2 |-> A(93), cid |-> A(12), s |-> 1, idu |-> NoneV, ids |-> NoneV, ksf |-> 0] >>
+Long_CliPw   == [c \in CliIds |-> CASE c = 2 -> <<A(1), A(93)>> [] c = 3 -> <<A(93), A(93)>> [] OTHER -> <<A(1), A(1)>>]
 Long_SrvSetups == {1}
 Long_SrvRecs == {0, 1, 2}
 Long_SrvCids == {A(11), A(90)}
